@@ -30,6 +30,14 @@ for d in sorted(glob.glob(os.path.join(R, "seeded", "C*-*"))):
     r = res.get(name, {})
     caught = ", ".join("%s: %s" % (k, v) for k, v in sorted(r.items())) or "(not run yet)"
     out.append("| %s | %s | %s | %s |" % (name, m.get("property"), str(m.get("needs", ""))[:260].replace("|", "/").replace("\n", " "), caught))
+out += ["", "Seeded changes not caught by the quick tier of any check at the end of this session, and why: "
+        "**C05-1** (the address family of an IPv4-mapped IPv6 address in ADD_ADDRESS / PUNCH_ME_NOW frames: the value enumeration of `Gen_Wire` has "
+        "no v4-mapped address), **C05-3** (a length-less STREAM frame followed by padding: a composition of two frames in one packet, `Wire.tla` "
+        "judges frames one at a time), **C07-2 / C07-3** (need more than 32 768 / 65 536 packets in one space before the wrong expected / "
+        "largest-acknowledged number matters; the journal replay works with single-digit packet numbers and `PnCodec` judges encode/decode, not the "
+        "journal's choice of their arguments), **C13-3** (the client-side `has_received_handshake_ack` flag is not part of the schedules "
+        "`Gen_Recovery` generates), **C20-3** (a failing log *sink*: `LegacySeqLogger` with a storage that runs out of space is not one of the exporter "
+        "configurations). Each is a gap of the generators / bindings, not of the specifications; they are the next things to add.", ""]
 out += ["", "Builder-written mutants (`mutants/*.patch`, run with `tools/mutant_run.sh`) are listed with their results in each property's section of Part II.", ""]
 na = os.path.join(R, "DESIGN.na.md")
 if os.path.exists(na):
